@@ -98,6 +98,9 @@ func check(c Case) ev.Verdict {
 	if d.K == ref.KNull || p1.K != ref.KObj || d.HasDup() || p1.HasDup() || p2.HasDup() {
 		return ev.Excluded("null document, non-object first patch or duplicate names")
 	}
+	if p2.K == ref.KObj && !laws.Compat(p1, p2) {
+		return ev.Excluded("incompatible pair (P2 holds an object where P1 holds a non-object)", "incompatible")
+	}
 	var out []byte
 	var err error
 	if p := ev.Safe(func() { out, err = jp.MergeMergePatches([]byte(c.P1), []byte(c.P2)) }); p != nil {
@@ -114,9 +117,6 @@ func check(c Case) ev.Verdict {
 			v.Err = fmt.Errorf("second patch is not an object, so the combined patch must be the second patch; got %s", out)
 		}
 		return v
-	}
-	if !laws.Compat(p1, p2) {
-		return ev.Excluded("incompatible pair (P2 holds an object where P1 holds a non-object)", "incompatible")
 	}
 	v := ev.Verdict{Classes: []string{"compatible"}}
 	v.NonTrivial = laws.SharedNull(p1, p2, 0)
